@@ -213,6 +213,15 @@ theorem what_another_transaction_reads_is_durable (ops : List Op) (s : St) (t k 
     s.read k = s.recovered k :=
   read_is_recovered s t k (run_inv ops empty s empty_inv hd hr) hl hp hu
 
+/-- ... and equally the value after a crash that keeps ANY part of the pending log (the journal may
+    have written any prefix of it by then) -/
+theorem what_another_transaction_reads_survives_every_crash_outcome (ops : List Op) (s : St) (t k n : Nat)
+    (hd : Disciplined empty ops) (hr : run empty ops = some s)
+    (hl : s.lock k = some t) (hp : ∀ c ∈ s.pend, c.1 ≠ t)
+    (hu : ∀ c ∈ s.pend, c.2.1 = true → ∀ kv ∈ c.2.2, kv.1 ≠ k) :
+    s.read k = valOf (s.dur ++ s.pend.take n) k :=
+  read_is_recovered_any_prefix s t k n (run_inv ops empty s empty_inv hd hr) hl hp hu
+
 /-- the only thing that can be pending on a key whose lock another transaction holds is an
     unstable WRITE (whose loss the protocol allows and reports: C07) -/
 theorem only_unstable_writes_are_revealed_early (ops : List Op) (s : St) (t k : Nat)
